@@ -242,11 +242,13 @@ impl Property for C08 {
         ops.push(SOp::Restart { policy: None });
         for sop in &ops {
             let step = exec.step(sop)?;
-            exec.check_outcome(&step)?;
+            exec.usable_or_skip(&step)?;
         }
         exec.driver.close()?;
         let final_image = exec.selfcheck_image(&Image::default())?;
-        let set = appended_set(&exec.appended);
+        // everything the implementation reported as appended (positions from the real outcomes)
+        let reported: Vec<(String, u64, Bytes)> = exec.really_appended.iter().map(|(name, pos, bytes, _)| (name.clone(), *pos, bytes.clone())).collect();
+        let set = appended_set(&reported);
         let frames = exec.driver.tracer.frames.clone();
         let live = live_frames(&frames, &final_image);
         let extents = written_extent(&frames, &final_image);
